@@ -25,6 +25,8 @@ func init() {
 			"C02.R3 congruence of scan-window bounds and of the dead-time skip",
 			"C02.R4 LastTrigger store: guarded by len(records)>0, value = records[len-1].trigFrame",
 			"C02.R5 must-pass-through EMTState.reset on successful reconfiguration",
+			"C02.R7 every record creation in a trigger pass is reachable only through the true side of the pass's enable flag and, where the pass has direction flags, through the true side of a direction test",
+			"C02.R8 in a pass that shifts the samples by a constant in the sample type, a bare shifted sample is compared in that type with a threshold that received the same constant in the same type",
 			"C02.R6 initial hold-off: every store to LastTrigger reachable from the per-start preparation step writes a far-past constant (so the first block is searched from NPresamples on)",
 		},
 		Run: runC02,
@@ -37,12 +39,16 @@ func runC02(p *Prog, r *Report) {
 	r.MinInstances["C02.R3"] = 7
 	r.MinInstances["C02.R4"] = 1
 	r.MinInstances["C02.R5"] = 2
+	r.MinInstances["C02.R7"] = 5
+	r.MinInstances["C02.R8"] = 4
 	c02R1(p, r)
 	c02R2(p, r)
 	c02R3(p, r)
 	c02R4(p, r)
 	c02R5(p, r)
 	c02R6(p, r)
+	c02R7(p, r)
+	c02R8(p, r)
 }
 
 // lastField returns the final field name of an address and the struct it belongs to.
@@ -574,4 +580,278 @@ func c02R6(p *Prog, r *Report) {
 	if n == 0 {
 		r.Bad("C02.R6", "initial LastTrigger", p.Pos(prep.Pos()), "the start path never initialises the hold-off reference")
 	}
+	// every other store (reconfiguration requests): LastTrigger may only be moved to a frame
+	// where a record really was emitted (R4, in TriggerData) or back to a constant that is not
+	// later than the first frame of any run (<= 0).  Anything else claims a trigger where there
+	// was none, and the hold-off after it hides real pulses.
+	trig := p.Func("", "DataStreamProcessor", "TriggerData")
+	for _, f := range p.LibFuncs() {
+		if seen[f] || f == trig || fnPkg(f) != p.Root.Pkg {
+			continue
+		}
+		for _, st := range StoresTo(f, "DataStreamProcessor", "LastTrigger") {
+			v, isC := constInt(stripConv(st.Val))
+			r.Fn(FuncName(f))
+			r.Check(isC && v <= 0, "C02.R6", "LastTrigger reset in "+FuncName(f), p.InstrPos(st),
+				"constant not later than the first frame of a run", "outside the trigger pass the hold-off reference LastTrigger is set to a computed frame: no record was emitted there, yet the edge/level passes skip one record length after it and the auto trigger waits a full delay from it, so pulses right after the request are lost")
+		}
+	}
+}
+
+// ---- R7: record creation is gated by the enable flag and by a direction flag -----------------
+
+// flagTest: the If tests a bool field of TriggerState, possibly negated; returns the field and
+// the successor taken when the tested expression is true.
+func flagTest(in ssa.Instruction) (flag string, onTrue *ssa.BasicBlock, flagTrue *ssa.BasicBlock, ok bool) {
+	iff, isIf := in.(*ssa.If)
+	if !isIf {
+		return
+	}
+	cond := iff.Cond
+	neg := false
+	if u, isU := cond.(*ssa.UnOp); isU && u.Op == token.NOT {
+		cond, neg = u.X, true
+	}
+	o, f, _, isF := FieldOf(cond)
+	if !isF || o != "TriggerState" {
+		return
+	}
+	if b, isB := cond.Type().Underlying().(*types.Basic); !isB || b.Kind() != types.Bool {
+		return
+	}
+	blk := iff.Block()
+	ft := blk.Succs[0]
+	if neg {
+		ft = blk.Succs[1]
+	}
+	return f, blk.Succs[0], ft, true
+}
+
+func c02R7(p *Prog, r *Report) {
+	trig := p.Func("", "DataStreamProcessor", "TriggerData")
+	if trig == nil {
+		r.Unk("C02.R7", "TriggerData", "-", "name-keyed anchor not found")
+		return
+	}
+	// the passes: functions called from TriggerData that create records (call a function returning *DataRecord)
+	makesRecord := func(in ssa.Instruction) bool {
+		c, ok := in.(*ssa.Call)
+		if !ok || c.Call.StaticCallee() == nil {
+			return false
+		}
+		return typeName(c.Type()) == "DataRecord" && c.Call.StaticCallee().Signature.Recv() != nil
+	}
+	var passes []*ssa.Function
+	Instrs(trig, func(in ssa.Instruction) {
+		cc := CallOf(in)
+		if cc == nil || cc.StaticCallee() == nil {
+			return
+		}
+		f := cc.StaticCallee()
+		has := false
+		Instrs(f, func(x ssa.Instruction) {
+			if makesRecord(x) {
+				has = true
+			}
+		})
+		if has {
+			passes = append(passes, f)
+		}
+	})
+	for _, f := range passes {
+		r.Fn(FuncName(f))
+		// flags tested in the pass, and their successors
+		flagTrueSucc := map[string][]*ssa.BasicBlock{}
+		condTrueSucc := map[string][]*ssa.BasicBlock{}
+		Instrs(f, func(in ssa.Instruction) {
+			if fl, _, ft, ok := flagTest(in); ok {
+				flagTrueSucc[fl] = append(flagTrueSucc[fl], ft)
+				// a branch taken because of the flag's value: a successor that belongs to this test
+				// alone (a block where both outcomes meet again selects nothing)
+				for _, sc := range in.Block().Succs {
+					if len(sc.Preds) == 1 {
+						condTrueSucc[fl] = append(condTrueSucc[fl], sc)
+					}
+				}
+			}
+		})
+		// the enable flag may also be tested by the caller (TriggerData) around the call
+		var sites []ssa.Instruction
+		Instrs(f, func(in ssa.Instruction) {
+			if makesRecord(in) {
+				sites = append(sites, in)
+			}
+		})
+		// (a) enable: some flag whose true-successor every path from entry to a record creation passes
+		var enable string
+		var names []string
+		for fl := range flagTrueSucc {
+			names = append(names, fl)
+		}
+		sort.Strings(names)
+		for _, fl := range names {
+			blocks := map[*ssa.BasicBlock]bool{}
+			for _, b := range flagTrueSucc[fl] {
+				blocks[b] = true
+			}
+			esc := ReachAvoiding(f, nil, func(x ssa.Instruction) bool { return blocks[x.Block()] && x == x.Block().Instrs[0] }, func(x ssa.Instruction) bool { return makesRecord(x) })
+			if len(esc) == 0 && enable == "" {
+				enable = fl
+			}
+		}
+		if enable == "" {
+			// gated in the caller?
+			Instrs(trig, func(in ssa.Instruction) {
+				if cc := CallOf(in); cc != nil && cc.StaticCallee() == f {
+					for _, ct := range controllingIfs(in.Block()) {
+						if fl, _, _, ok := flagTest(ct.If); ok {
+							enable = fl + " (tested in " + FuncName(trig) + ")"
+						}
+					}
+				}
+			})
+		}
+		r.Check(enable != "", "C02.R7", FuncName(f)+": records are created only when the pass is enabled", p.Pos(f.Pos()),
+			"every path to a record creation passes the true side of "+enable,
+			"a record can be created on a path that never tested an enable flag of the trigger state: records appear although that kind of trigger is switched off")
+		// (b) direction: the other flags tested in the pass select the criterion; every path from
+		// entry to a record creation passes the true side of one of those tests
+		var dirs []string
+		blocks := map[*ssa.BasicBlock]bool{}
+		for _, fl := range names {
+			if fl == enable {
+				continue
+			}
+			dirs = append(dirs, fl)
+			for _, b := range condTrueSucc[fl] {
+				blocks[b] = true
+			}
+		}
+		if len(dirs) == 0 {
+			continue
+		}
+		esc := ReachAvoiding(f, nil, func(x ssa.Instruction) bool { return blocks[x.Block()] && x == x.Block().Instrs[0] }, func(x ssa.Instruction) bool { return makesRecord(x) })
+		pos := p.Pos(f.Pos())
+		if len(esc) > 0 {
+			pos = p.InstrPos(esc[0])
+		}
+		_ = sites
+		r.Check(len(esc) == 0, "C02.R7", FuncName(f)+": each record creation follows a test of a direction flag ("+strings.Join(dirs, ", ")+")", pos,
+			"no path reaches a record creation without taking a branch that belongs to one outcome of a direction test",
+			"a record creation is reachable without any of the direction flags ("+strings.Join(dirs, ", ")+") having selected its criterion: with only one direction enabled, samples that satisfy only the other direction's comparison still produce records (unsound triggers), and their dead time hides genuine ones")
+	}
+	if len(passes) == 0 {
+		r.Bad("C02.R7", "trigger passes", p.Pos(trig.Pos()), "no record-creating pass is called from the trigger function")
+	}
+}
+
+// ---- R8: a shifted sample is compared in the type in which it was shifted --------------------
+
+// c02R8: the level pass makes signed data comparable by adding a constant to every sample in the
+// sample type (the addition wraps).  A bare sample of that shifted buffer must then be compared
+// with a threshold of the same type that received the same constant in the same type; comparing
+// after widening (or shifting the threshold in a wider type) orders negative thresholds wrongly.
+func c02R8(p *Prog, r *Report) {
+	trig := p.Func("", "DataStreamProcessor", "TriggerData")
+	if trig == nil {
+		return
+	}
+	n := 0
+	Instrs(trig, func(in ssa.Instruction) {
+		cc := CallOf(in)
+		if cc == nil || cc.StaticCallee() == nil {
+			return
+		}
+		f := cc.StaticCallee()
+		// shifted buffers: MakeSlice B with a store B[i] = B[i] + K
+		type shift struct {
+			buf ssa.Value
+			k   int64
+			t   types.Type
+		}
+		var shifts []shift
+		Instrs(f, func(x ssa.Instruction) {
+			st, ok := x.(*ssa.Store)
+			if !ok {
+				return
+			}
+			ia, ok := st.Addr.(*ssa.IndexAddr)
+			if !ok {
+				return
+			}
+			bo, ok := st.Val.(*ssa.BinOp)
+			if !ok || bo.Op != token.ADD {
+				return
+			}
+			k, isC := constInt(bo.Y)
+			ld, isLd := bo.X.(*ssa.UnOp)
+			if !isC || !isLd {
+				return
+			}
+			if la, ok := ld.X.(*ssa.IndexAddr); !ok || la.X != ia.X {
+				return
+			}
+			shifts = append(shifts, shift{ia.X, k, bo.Type()})
+		})
+		if len(shifts) == 0 {
+			return
+		}
+		fromShifted := func(v ssa.Value) (shift, bool) {
+			ld, ok := v.(*ssa.UnOp)
+			if !ok || ld.Op != token.MUL {
+				return shift{}, false
+			}
+			ia, ok := ld.X.(*ssa.IndexAddr)
+			if !ok {
+				return shift{}, false
+			}
+			for _, s := range shifts {
+				if ia.X == s.buf {
+					return s, true
+				}
+				if ph, ok := ia.X.(*ssa.Phi); ok {
+					for _, e := range ph.Edges {
+						if e == s.buf {
+							return s, true
+						}
+					}
+				}
+			}
+			return shift{}, false
+		}
+		Instrs(f, func(x ssa.Instruction) {
+			bo, ok := x.(*ssa.BinOp)
+			if !ok {
+				return
+			}
+			switch bo.Op {
+			case token.LSS, token.LEQ, token.GTR, token.GEQ:
+			default:
+				return
+			}
+			for _, pair := range [][2]ssa.Value{{bo.X, bo.Y}, {bo.Y, bo.X}} {
+				s, ok := fromShifted(stripConv(pair[0]))
+				if !ok {
+					continue
+				}
+				n++
+				r.Fn(FuncName(f))
+				same := types.Identical(pair[0].Type(), s.t)
+				// the other operand: phi(level, level + K) with the addition done in the sample type
+				thrOK := false
+				if ph, isPhi := pair[1].(*ssa.Phi); isPhi {
+					for _, e := range ph.Edges {
+						if add, isAdd := e.(*ssa.BinOp); isAdd && add.Op == token.ADD && types.Identical(add.Type(), s.t) {
+							if k, isC := constInt(add.Y); isC && k == s.k {
+								thrOK = true
+							}
+						}
+					}
+				}
+				key := fmt.Sprintf("%s: comparison of a shifted sample #%d is made in the sample type with an equally shifted threshold", FuncName(f), n)
+				r.Check(same && thrOK, "C02.R8", key, p.InstrPos(bo), "sample and threshold both carry +"+fmt.Sprint(s.k)+" applied in "+s.t.String(),
+					"the samples were shifted by "+fmt.Sprint(s.k)+" in "+s.t.String()+" (wrapping), but the comparison is made after widening the sample or against a threshold shifted in another type: for thresholds at or beyond the wrap point (negative levels of signed data) the order of sample and threshold is reversed and the trigger never, or always, fires")
+			}
+		})
+	})
 }
